@@ -190,7 +190,9 @@ CLAIMED = {
              "policy sets under every id-order pattern, and every policy of the expression universe. The harness renders each "
              "with the real MarshalCedar (built from the AST, decoded from its JSON, reparsed from its text), parses the text with "
              "the real parser, renders again, and records code points and ASTs; Trace_Marshal compares the meaning of what came "
-             "back AND of what the specification's own lexer + parser read in the recorded text; random policies the same way.",
+             "back AND of what the specification's own lexer + parser read in the recorded text; random policies the same way. "
+             "For subjects built from an AST, the public builder API (package ast) applied to the subject's own structure must "
+             "build the subject.",
         design_ref="DESIGN.md 4 C08",
         note=TRUSTED + "Meaning is compared on finite environment sets. Spelling tables relating code points to atomic names are "
              "computed by harness and checker (TLC cannot look inside strings). ASTs with no text form are outside the statement.",
@@ -210,7 +212,8 @@ CLAIMED = {
              "In the other direction values of every kind at their boundaries and at random -- and every Unicode scalar value as "
              "string / entity id (thorough; every 257th quick) -- are printed by the real String() / MarshalCedar(); TLC reads the "
              "recorded code points with the specification's parsers and compares with the value, and checks what the real parsers "
-             "and the real parser + evaluator read back (Trace_Text).",
+             "and the real parser + evaluator read back (Trace_Text). The constructor tables also hold the Go-side conversions "
+             "(Duration.Duration() in nanoseconds or an error, truncating unit accessors, NewDuration, Datetime.Time round trip).",
         design_ref="DESIGN.md 4 C12",
         note=TRUSTED + "Unicode printability tables are not modelled (any escape that unescapes to the character is accepted). "
              "NewDecimalFromFloat is documented as approximate: exactness only where the product is exact in a double; at the range "
@@ -287,8 +290,10 @@ CLAIMED = {
              "specification and for the real decoder.",
         design_ref="DESIGN.md 4 C13",
         note=TRUSTED + "Inputs are seeded random and boundary data, not an exhaustive universe. The decoder's fallback for malformed "
-             "escape payloads is followed by the specification (named deviation). Schema-guided coercion and Decision / Diagnostic "
-             "are not covered here.",
+             "escape payloads is followed by the specification (named deviation). Also covered: schema-guided coercion "
+             "(Trace_ValueSchema: explicit, implicit and mixed spellings inside one set, coercion specified from the resolved "
+             "schema), records whose keys differ from the escape words only in letter case, and decision / diagnostic JSON "
+             "(read by ValueJson!DecisionDiagFromDoc).",
         technique="TLA+ reader of the value / entity JSON format as the judge; TLC trace validation of recorded encode / decode / "
                   "re-encode round trips and alternative spellings"),
     "C10": dict(
@@ -323,7 +328,8 @@ CLAIMED = {
              "(every entity type in every scope form and as in / is operand, every attribute, every action, literals of every kind "
              "incl. set / record / extension VALUE nodes, and the same policies as the JSON decoder builds them), Validator.Entity / "
              "Entities / Request over data derived from the declared shapes. Trace_Schema (Focus total): every run returned; a "
-             "worker death (fatal stack overflow), a panic or the deadline is a violation.",
+             "worker death (fatal stack overflow), a panic or the deadline is a violation. The graph families are also generated "
+             "inside a namespace of two segments; a 24-level ladder of diamonds in the action hierarchy must validate within the deadline.",
         design_ref="DESIGN.md 4 C16",
         note=TRUSTED + "Termination is a 120 s deadline; crashes are observed over the enumerated families, not proved absent. Policies / "
              "entities / requests are derived from each resolved schema by the harness.",
